@@ -115,6 +115,16 @@ def observe(op, inp):
         a = pdata(inp)
     except Exception as e:
         a = Exc(type(e).__name__)
+    # the third observation point: Debian822(text) reads the text after signature removal; a text that is not an
+    # enveloped message (does not start with the armor header line and end with the armor tail) is read as it is
+    s = inp.strip()
+    if inp and not (s.startswith('-----BEGIN PGP SIGNED MESSAGE-----') and s.endswith('-----END PGP SIGNATURE-----')) and isinstance(a, list):
+        try:
+            d = debcon.Debian822(inp).to_dict()
+            if [[k, v] for k, v in d.items()] != a or d2l(debcon.get_paragraph_data(inp, remove_pgp_signature=True)) != a:
+                a = Exc('RoutesDisagree')
+        except Exception as e:
+            a = Exc('Route' + type(e).__name__)
     try:
         b = psdata(inp)
     except Exception as e:
@@ -169,6 +179,19 @@ def multiline_family():
             yield [['a' if i != 1 else 'B', v] for i, v in enumerate(combo)]
 
 
+def armored(rng, n):
+    """texts that hold a whole clear-signed block but are not enveloped messages: content after the armor tail, before
+    the armor header, or both - nothing of them may be dropped by any of the three readers"""
+    import props.c16 as c16
+    for _ in range(n):
+        msg = c16.wellformed(rng)[8].replace('\r\n', '\n')
+        before = rng.choice(('', '', 'Package: a\n', 'junk\n', '\n'))
+        after = rng.choice(('Checksums-Sha1: 1b7f zlib.tar.gz\nHomepage: http://zlib.net/\n', 'trailing', 'x: y', '\n\nFiles: z\n', ' ', '-----END PGP SIGNATURE-----x'))
+        if not before and rng.random() < 0.15:
+            after = ''
+        yield before + msg + ('' if msg.endswith('\n') or not after else '\n') + after
+
+
 def streams(tier, rng):
     yield {'name': 'pairs-family', 'op': 'C08m', 'cases': pairs_family(), 'exhaustive': True}
     yield {'name': 'multi-line-values-family', 'op': 'C08m', 'cases': multiline_family(), 'exhaustive': True}
@@ -178,3 +201,4 @@ def streams(tier, rng):
     yield {'name': 'vocabulary-texts', 'op': 'C08', 'cases': texts(rng, 20000 if tier == 'quick' else 300000)}
     yield {'name': 'repeated-names-overlapping-values', 'op': 'C08', 'cases': repeats(rng, 4000 if tier == 'quick' else 60000)}
     yield {'name': 'random-822', 'op': 'C08', 'cases': (gen822.random_text(rng, 10) for _ in range(5000 if tier == 'quick' else 80000))}
+    yield {'name': 'armor-lines-inside-plain-text', 'op': 'C08', 'cases': armored(rng, 1500 if tier == 'quick' else 20000)}
